@@ -237,6 +237,8 @@ def check(model, rep, tier):
       else:
         rep.violation('CALL-FAITHFUL', site, 'unexpected derivation of the '
                       'arguments passed to the converted function', line=n.lineno)
+  from sa import rules_order
+  rules_order.user_order(model, rep, 'CALL-FAITHFUL')
   # what is converted and what it is called with, per kind of callable
   # (path-wise symbolic values at the conversion call)
   from sa import pathsym
